@@ -4,7 +4,7 @@ From Coq Require Import ZArith String List Bool Lia ZifyBool.
 From PushModel Require Import Base.Sx Base.Machine Base.ListOps Base.F32 Model.Item Model.GraphT Model.State
   Model.InstrBase Model.IScalar Model.ICode Model.Registry Model.Interp
   Model.IVector Model.RegistryVec Model.IList Model.IIo Model.RegistryListIo Model.IGraph Model.RegistryGraph
-  Model.RegistryAll Spec.Footprint Proofs.Frame Proofs.FrameProofs Proofs.FrameProofs2 Proofs.Unfired.
+  Model.INeighbor Model.RegistryNbr Model.RandomGen Model.IRand Model.RegistryRand Model.RegistryAll Spec.Footprint Proofs.Frame Proofs.FrameProofs Proofs.FrameProofs2 Proofs.Unfired.
 Import ListNotations.
 Open Scope string_scope.
 
@@ -15,6 +15,7 @@ Definition guarded_ok (g : state -> bool) (f : sem) : Prop :=
 Ltac prep_guard G :=
   repeat match type of G with
          | negb _ = true => apply negb_true_iff in G
+         | (_ || _) = true => apply orb_prop in G; destruct G as [G|G]
          | context [match ?x with _ => _ end] => destruct x eqn:?; try discriminate G
          end.
 Ltac use_guard G H :=
@@ -75,16 +76,23 @@ Section Guards.
     Time gtable_tac ltac:(guard_tac unfold_graph).
   Time Qed.
 
+  Lemma nbr_guarded : table_guarded tbl_nbr.
+  Proof. unfold table_guarded, tbl_nbr. Time gtable_tac ltac:(guard_tac unfold_nbr). Time Qed.
+  Lemma rand_guarded instrs : table_guarded (tbl_rand instrs).
+  Proof. unfold table_guarded, tbl_rand. Time gtable_tac ltac:(guard_tac unfold_rand). Time Qed.
+
   Lemma all_guarded : table_guarded full_table.
   Proof.
-    unfold table_guarded, full_table.
+    unfold table_guarded, full_table, base_table.
+    apply Forall_app; split; [|exact (rand_guarded _)].
     apply Forall_app; split; [exact core_guarded|].
     apply Forall_app; split; [exact bvec_guarded|].
     apply Forall_app; split; [exact ivec_guarded|].
     apply Forall_app; split; [exact fvec_guarded|].
     apply Forall_app; split; [exact list_guarded|].
     apply Forall_app; split; [exact io_guarded|].
-    exact graph_guarded.
+    apply Forall_app; split; [exact graph_guarded|].
+    exact nbr_guarded.
   Qed.
 
   Theorem guard_only_pops n f : In (n, f) full_table ->
